@@ -172,7 +172,7 @@ class C11(Check):
         "histories of 1-40 client requests (independent ISO layout grammar: every service the vECU answers, raw bytes, suppress-bit variants) x outcome per request "
         "{genuine positive/negative, no reply, truncated reply, foreign reply, connection reset, responsePending then reply, late reply, empty line} x max_retry 0-1 x "
         "tester-present worker on/off x implicit logging toggled off/on at drawn points x ANALYZE tag x database writer latency 0.1-50 ms per statement x crash point "
-        "{none, exception after request k, Ctrl-C at a virtual instant inside request k}. non-trivial = a fault outcome, a toggle or a crash point occurred; "
+        "{none, exception after request k, Ctrl-C at a virtual instant inside request k} x resets of the client's state view; strata: transient 'database is locked', logging off from the start, state race (tester-present queued behind slow session changes), backlog (> 1000 rows queued at the interrupt). non-trivial = a fault outcome, a toggle or a crash point occurred; "
         "distinct = (sequence of outcome classes, crash kind, options)."
     )
     assumptions = [
